@@ -2,10 +2,14 @@ import RedisVerif.Driver.Codec
 import RedisVerif.Model.Ring
 
 /-
-  C19 sub-driver (stateful).  The state holds the table of real virtual-node positions
-  (`hashV`, obtained by the harness through hook H2), the current model ring and router.
+  C19 sub-driver (stateful).  The model HASHES ITSELF: virtual-node positions are
+  `Ring.vnodePos Sip.sip13` (SipHash-1-3 over the id's 8 and the index's 4 little-endian bytes),
+  key positions `Ring.keyPosOf Sip.sip13 HB.keyStr` (the key's bytes and 0xff).  The real
+  positions (hook H2) are carried by the `V` / `KP` lines and only COMPARED (`conflicts`).
 
-    V <node> <count> <pos_0> … <pos_{count-1}>     define hashV node i = pos_i          → ok
+    SIP <hex>                                      DefaultHasher over raw bytes          → <u64>
+    V <node> <count> <pos_0> … <pos_{count-1}>     real positions of the node's vnodes   → ok conflicts=<c>
+    KP <m> (<keyhex> <keypos>)*m                   real ring positions of keys           → ok conflicts=<c>
     NEW <vnodes> <rf> <k> <n_1> … <n_k>            HashRing::new                         → ring summary
     ADD <node> | REM <node>                        add_node / remove_node                → ring summary
     K <rf|-> <m> <keypos>*                         get_replicas[_with_rf] per key        → r a,b|c,d|…
@@ -23,16 +27,13 @@ namespace RedisVerif.Driver.C19
 open RedisVerif RedisVerif.Driver RedisVerif.Ring
 
 structure St where
-  hv : List (Nat × Array Nat)
   ring : HashRing
   router : Option Router
 
-def St.init : St := { hv := [], ring := Ring.empty 0 0, router := none }
+def St.init : St := { ring := Ring.empty 0 0, router := none }
 
-def St.hashV (st : St) : Nat → Nat → Nat := fun node i =>
-  match st.hv.lookup node with
-  | some a => a.getD i 0
-  | none => 0
+/-- `HashRing::hash_virtual_node` of the current tree -/
+def St.hashV (_ : St) : Nat → Nat → Nat := vnodePos Sip.sip13
 
 def chkP : Nat := 2305843009213693951
 
@@ -78,10 +79,19 @@ def showQueue (q : List Msg) : String :=
 def cmd (st : St) : P (St × String) := do
   let op ← tok
   match op with
+  | "SIP" => do
+    let b ← bytesTok
+    pure (st, toString (Sip.sip13 b))
   | "V" => do
     let node ← nat
     let ps ← natList
-    pure ({ st with hv := (node, ps.toArray) :: st.hv.filter (fun p => p.1 != node) }, "ok")
+    let c := (ps.zipIdx).foldl (fun (c : Nat) p => if vnodePos Sip.sip13 node p.2 == p.1 then c else c + 1) 0
+    pure (st, s!"ok conflicts={c}")
+  | "KP" => do
+    let m ← nat
+    let es ← repeatP m (do let k ← strKey; let p ← nat; pure (k, p))
+    let c := es.foldl (fun (c : Nat) e => if keyPosOf Sip.sip13 HB.keyStr e.1 == e.2 then c else c + 1) 0
+    pure (st, s!"ok conflicts={c}")
   | "NEW" => do
     let vn ← nat
     let rf ← nat
